@@ -203,4 +203,43 @@ def flatCovers (t : NTable) (f : Table) : Bool :=
       m.patterns.all fun a => (closure t (mi + 1) mi a).all fun x => fm.reads.contains x
     | _, _ => false
 
+/-! ### calls that raise (round 4)
+
+A cached method that raises stores nothing under its own key (`functools.lru_cache` only stores
+returned values), but the nested cached calls that had already returned keep their entries. -/
+
+/-- `mi(a)` raises along `path = k :: rest`: its first `k` nested cached calls return normally
+(their results stay in the callees' caches); if `rest` is non-empty the exception comes out of
+nested call number `k`, which is itself aborted along `rest`.  Nothing is stored for `mi`; a call
+that is served from the cache does not run the body and cannot raise. -/
+def nabort (t : NTable) : Nat → State → Nat → Nat → List Nat → State
+  | 0, s, _, _, _ => s
+  | _ + 1, s, _, _, [] => s
+  | fuel + 1, s, mi, a, k :: rest =>
+    match t.methods[mi]? with
+    | none => s
+    | some m =>
+      match findEntry s.cache mi a (m.keyOf s) with
+      | some _ => s
+      | none =>
+        let calls := (m.bodyOf a).calls
+        let s1 := (ncalls (fun s' n c => nquery t fuel s' n c) mi (calls.take k) s).state
+        match rest, calls[k]? with
+        | _ :: _, some nc => if nc.1 < mi then nabort t fuel s1 nc.1 nc.2 rest else s1
+        | _, _ => s1
+
+/-- histories with raising calls -/
+inductive XOp
+  | op (o : Op)
+  | raises (mi a : Nat) (path : List Nat)
+deriving Repr
+
+def xstep (t : NTable) (s : State) : XOp → State × Option (List Nat × List Nat)
+  | .op o => nstep t s o
+  | .raises mi a path => (nabort t (mi + 1) s mi a path, none)
+
+def xrun (t : NTable) : State → List XOp → List (Option (List Nat × List Nat))
+  | _, [] => []
+  | s, op :: ops => let r := xstep t s op; r.2 :: xrun t r.1 ops
+
 end Pyunicorn.Memo
